@@ -5,6 +5,7 @@ from collections.abc import Sequence
 
 import numpy as np
 import numpy.typing as npt
+import scipy as sp
 
 from bqskit.ir.gate import Gate
 from bqskit.ir.gates.composedgate import ComposedGate
@@ -167,21 +168,34 @@ class VariableLocationGate(ComposedGate):
         l = softmax(l, 10)
 
         P = np.sum([a * s for a, s in zip(l, self.perms)], 0)
-        G = self.gate.get_unitary(a)
-        G = np.kron(G, self.I)
-        PG = P @ G
-        GPT = G @ P.T
-        PGPT = P @ GPT
+        G = np.kron(self.gate.get_unitary(a), self.I)
+        GP = G @ P
+        PTG = P.T @ G
+        PTGP = P.T @ GP  # same placement as get_unitary
 
-        dG = self.gate.get_grad(a)
-        dG = np.kron(dG, self.I)
-        dG = P @ dG @ P.T
-
+        # Derivative of the (not yet projected) mixture P^T (G x I) P
+        dG = np.asarray(self.gate.get_grad(a))
+        if dG.size == 0:  # constant gate
+            dG = np.zeros((0,) + PTGP.shape, dtype=np.complex128)
+        else:
+            dG = P.T @ np.kron(dG, self.I) @ P
         perm_array = np.array([perm for perm in self.perms])
-        dP = perm_array @ GPT + PG @ perm_array.transpose((0, 2, 1)) - 2 * PGPT
+        dP = perm_array.transpose((0, 2, 1)) @ GP + PTG @ perm_array - 2 * PTGP
         dP = np.array([10 * x * y for x, y in zip(l, dP)])
-        U = UnitaryMatrix.closest_to(PGPT, self.radixes)
-        return U, np.concatenate([dG, dP])
+        dM = np.concatenate([dG, dP])
+
+        # get_unitary returns the unitary polar factor V @ Wh of M = V S Wh;
+        # its derivative is V K Wh with K_ij = (A_ij - conj(A_ji)) / (s_i + s_j),
+        # A = V^dagger dM W.
+        V, S, Wh = sp.linalg.svd(PTGP)
+        A = V.conj().T @ dM @ Wh.conj().T
+        K = (A - A.conj().transpose((0, 2, 1))) / np.maximum(
+            S[:, None] + S[None, :], 1e-12,
+        )
+        dU = V @ K @ Wh
+
+        U = UnitaryMatrix(V @ Wh, self.radixes, False)
+        return U, dU
 
     def optimize(self, env_matrix: npt.NDArray[np.complex128]) -> list[float]:
         """
